@@ -2,7 +2,9 @@
 #![allow(clippy::type_complexity)]
 
 pub mod engine;
+pub mod fix;
 pub mod json;
+pub mod oracle;
 pub mod props;
 
 use engine::{Ctx, Tier};
